@@ -485,6 +485,24 @@ func (rc *roundCheck) run() {
 					recreated = true
 				}
 			case hydrapb.Status_UPDATED:
+				if !present && rc.conc {
+					// A writer that saved a stale record object (fetched before the key was removed and
+					// re-created) is announced as UPDATED with the re-created object as OldTreasure; that
+					// can even overtake the NEW event of the re-created object it refers to. Same defect
+					// as an OldTreasure that is neither the previous nor the new value.
+					o, nv := valOf(m.GetOldTreasure()), valOf(m.GetTreasure())
+					refers := false
+					for _, other := range evs {
+						if other.r.Msg.GetStatus() == hydrapb.Status_NEW && valOf(other.r.Msg.GetTreasure()) == o {
+							refers = true
+						}
+					}
+					if o != "" && o != nv && refers {
+						rc.fail("payload:UPDATED:old-value:"+me.cap.ex.Op.K+":other:"+rc.mode(), fmt.Sprintf("key %s: UPDATED event of %s (new %s) carries OldTreasure=%s, the value of another record object of this key whose NEW event is elsewhere in the stream; by the preceding events the key did not exist", k, me.cap.ex.label(), nv, o), rc.dumpKey(k))
+						broken = true
+						continue
+					}
+				}
 				if !present {
 					rc.fail("order:UPDATED-for-absent-key:"+me.cap.ex.Op.K+":"+rc.mode(), fmt.Sprintf("key %s: UPDATED event (%s) although by the preceding events the key does not exist", k, valOf(m.GetTreasure())), rc.dumpWith(me.r))
 					broken = true
